@@ -31,12 +31,15 @@ def build(tier, seed):
                     continue  # symbolic argmin => symbolic message destinations: > 8 GB with two decodes (item 2 covers these pairs with one full decode)
                 if tier == "thorough" and name != "chain2x3" and lim != 1:
                     continue  # the larger matrices at limit 1 only
+                if lim >= 2 and kind != "i8":
+                    continue  # float pairs at limit 2: up to > 3600 s (two-run float miter), and a failure is no longer reachable on the chain
                 hn = "c10_havoc_%s_%s_l%d" % (impl, name, lim)
                 w = 2.0 if lim == 0 else (12.0 if kind == "i8" else 25.0) * lim
+                cov = 1 if lim >= 2 else None   # after two iterations on the chain a failure may be unreachable
                 items.append((Harness(hn, {"pair": "%s::Decoder<%s>" % (sched, ty), "matrix": name, "iteration_limit": lim,
                                             "input": "arbitrary pre-state (every LLR/message value cell symbolic) + %d LLRs from s*2^-e" % n,
                                             "oracle": "same (verdict, word, iterations) as a fresh decoder"}, w,
-                                      stubs="TABLE" if kind == "i8" else "SURROGATE", neighbourhood=True),
+                                      stubs="TABLE" if kind == "i8" else "SURROGATE", neighbourhood=True, covers=cov),
                               "crate::%s!(%s, %s, %s, h_%s, %d, %d, %d);" % (mac, hn, stubs, ty, name, n, lim, max(n, len(rows), lim) + 3)))
     # --- item 2: real two-call history, second call with zero iterations
     limas = [1] if tier == "quick" else [0, 1]
